@@ -685,3 +685,34 @@ def first_last_table(R, ctx, rid):
                 if used:
                     nones |= ks
         R.ob(rid, fn, "none-kinds", nones == {"Deleted", "Format"}, "answers None for %s" % sorted(nones))
+
+
+KIND_PRESERVING = ("<yrs::block::ItemContent as std::clone::Clone>::clone",)
+
+
+def kind_preserving(R, ctx, rid):
+    """A copy of an ItemContent has the kind of the original."""
+    Y = ctx.yrs
+    R.rule(rid, "R-TABLE ItemContent::clone — what ItemPtr::redo re-creates an undone element from — constructs, in the arm of every kind, "
+                "a value of that same kind (kinds_reaching per construction), and every kind of the enum is constructed: an Embed copied "
+                "as Any keeps its length and index but is no longer rendered by the text readers, so undo restores the wrong content")
+    allk = [v["name"] if isinstance(v, dict) else (v[1] if isinstance(v, (list, tuple)) else v) for v in Y.enums.get("yrs::block::ItemContent", [])]
+    for path in KIND_PRESERVING:
+        fn = Y.fn(path)
+        built = set()
+        n = 0
+        for i, j, st in fn.stmts():
+            ag = st["rv"].get("agg") if isinstance(st["rv"], dict) else None
+            if not (ag and str(ag.get("adt", "")).endswith("block::ItemContent")):
+                continue
+            n += 1
+            var = ag["variant"]
+            ks, used = kinds_reaching(Y, fn, i, place_hint=None)
+            ok = bool(used) and ks == {var}
+            if ok:
+                built.add(var)
+            R.ob(rid, fn, "copy:" + var, ok, "built only for a %s original" % var if ok else
+                 "a %s is built where the original is %s" % (var, sorted(ks) if used else "of any kind"), "yrs/src/block.rs:%s" % st.get("line"))
+        missing = [k for k in allk if k not in built]
+        R.ob(rid, fn, "all-kinds", bool(allk) and not missing, "every kind is copied as itself" if allk and not missing else "no copy of kind %s" % missing)
+        R.floor(rid, "constructions in %s" % path.rsplit("::", 1)[-1], n, 9)
